@@ -53,13 +53,18 @@ const (
 	KFuncI       Kind = "func(int)"
 )
 
-// Upper is a custom (un)marshaler type. The value denoted by text v is "U:"+v;
-// text containing "!bad" denotes nothing.
+// Upper is a custom (un)marshaler type. The value denoted by text v is "U:"+v
+// (the empty text denotes the zero value, so that marshalling is the inverse of
+// unmarshalling on every reachable value); text containing "!bad" denotes nothing.
 type Upper string
 
 func (u *Upper) UnmarshalFlag(v string) error {
 	if strings.Contains(v, "!bad") {
 		return fmt.Errorf("upper: bad value")
+	}
+	if v == "" {
+		*u = ""
+		return nil
 	}
 	*u = Upper("U:" + v)
 	return nil
